@@ -420,6 +420,28 @@ void w_nomatch_text(void)
   __CPROVER_assert(0, "REACH! nomatch.end");
 }
 
+/* the forbidden-call report: fatal, the forbidding expectation's location and text, every ACTUAL argument of the call */
+int in_argx;
+void w_forbidden_text(void)
+{
+  build_world();
+  int x = nondet_int(); in_argx = x;
+  int c = spec_candidate();
+  __CPROVER_assume(c >= 0 && in_max[c] == 0);
+  (void)MOCK_FUNC(exps, nm_func, nm_sig, &x);
+  __CPROVER_assert(vp_rep_n == 1 && vp_rep[0].sev == 0 && vp_rep[0].file == nm_file[c] && vp_rep[0].line == 100 + c, "[C07,C15] POST forbidden_text.one_fatal_report_with_the_forbidding_expectation_location");
+  const struct vp_string *m = &vp_rep[0].msg;
+  __CPROVER_assert(!m->overflow, "[C15] MODEL token capacity sufficient");
+  int n_int = 0; long ints[2]; _Bool named = 0;
+  for (int k = 0; k < VP_TOK_CAP; k++) if (k < m->n) {
+    if (m->t[k].kind == VP_T_INT) { if (n_int < 2) ints[n_int] = (long)m->t[k].v; n_int++; }
+    if (m->t[k].kind == VP_T_CSTR && m->t[k].p == nm_name[c]) named = 1;
+  }
+  __CPROVER_assert(named, "[C07,C15] POST forbidden_text.report_carries_the_forbidding_expectation_text");
+  __CPROVER_assert(n_int == 2 && ints[0] == 1 && ints[1] == (long)x, "[C07,C15] POST forbidden_text.prints_every_actual_argument");
+  __CPROVER_assert(0, "REACH! forbidden_text.end");
+}
+
 /* destroying a sequence object reports exactly the expectations still registered in it, in registration order */
 void w_seqdtor_text(void)
 {
